@@ -193,6 +193,25 @@ def main(tier):
                 allf = {k: v.replace("\n", nl) for k, v in ff.items()}
                 cases.append({"id": cid, "files": {k: b64(v) for k, v in allf.items()}, "root": "main.jst"})
                 files_of[cid] = allf
+    # faults deep inside lines of more than 200 bytes (one-line bodies), at the head, in the middle and near the end of
+    # the line, with more text after the line
+    for ln, (total, at) in enumerate([(150, 120), (205, 10), (205, 199), (260, 130), (260, 250), (400, 205), (400, 330), (400, 392), (700, 650)]):
+        for fk, bad in enumerate(['?', '@zznosuchtype']):
+            props, k = [], 0
+            while len(", ".join(props)) < at - 4:
+                k += 1
+                props.append('"k%d": %d' % (k, k))
+            head = ", ".join(props)
+            tail = []
+            while len(head) + len(bad) + len(", ".join(tail)) + 20 < total:
+                k += 1
+                tail.append('"t%d": %d' % (k, k))
+            line = "  {" + head + ', "bad": ' + bad + (", " + ", ".join(tail) if tail else "") + "}"
+            for nl in ("\n", "\r\n"):
+                text = ("JSIGHT 0.3\nTYPE @zlong\n" + line + "\nTYPE @zafter any // the line after the long one\nGET /zx\n  200 @zlong\n").replace("\n", nl)
+                cid = "l%d_%d_%s" % (ln, fk, "lf" if nl == "\n" else "crlf")
+                cases.append({"id": cid, "files": {"main.jst": b64(text)}, "root": "main.jst"})
+                files_of[cid] = {"main.jst": text}
     # an INCLUDE of a file that exists but cannot be read, in the root file and in an included file: the diagnostic is at
     # that INCLUDE and its chain is the chain of the file the INCLUDE stands in
     unread = {
@@ -253,7 +272,8 @@ def main(tier):
     # line / quote of the real diagnostics, judged by TLC
     if loc_pairs:
         if not thorough and len(loc_pairs) > 250:
-            idx = rnd.sample(range(len(loc_pairs)), 250)
+            keep = [i for i, (cid, e) in enumerate(loc_src) if cid.startswith(("l", "u_", "m"))]      # the hand-made families always
+            idx = keep + rnd.sample([i for i in range(len(loc_pairs)) if i not in set(keep)], max(0, 250 - len(keep)))
             loc_pairs = [loc_pairs[i] for i in idx]
             loc_src = [loc_src[i] for i in idx]
         rows = []
